@@ -169,6 +169,9 @@ fn cache_at_quiescence_matches_model() {
             // C17 conservation
             let m = &c.metrics;
             if m.get_hits().unwrap() + m.get_misses().unwrap() != lookups { bad!("C17:cache.get.hit-xor-miss", &["C17"], "Cache::get", format!("hits+misses={} lookups={}", m.get_hits().unwrap() + m.get_misses().unwrap(), lookups), "equal".into()); }
+            { let (h, mi) = (m.get_hits().unwrap(), m.get_misses().unwrap());
+              let want = if h + mi == 0 { 0.0 } else { h as f64 / (h + mi) as f64 };
+              if let Some(r) = m.ratio() { if (r - want).abs() > 1e-12 { bad!("C17:metrics.ratio", &["C17"], "MetricsInner::ratio", format!("ratio() = {} with hits {} misses {}", r, h, mi), format!("{}", want)); } } }
             if m.get_keys_added().unwrap() as i64 - m.get_keys_evicted().unwrap() as i64 != charges.len() as i64 {
                 bad!("C17:add.key-ledger", &["C17"], "LFUPolicy::add", format!("keys_added-keys_evicted={} charged entries={}", m.get_keys_added().unwrap() as i64 - m.get_keys_evicted().unwrap() as i64, charges.len()), "equal".into()); }
             if m.get_cost_added().unwrap().wrapping_sub(m.get_cost_evicted().unwrap()) as i64 != used {
